@@ -106,6 +106,7 @@ type streamWriter struct {
 	confluence.UnarySink[WriterRequest]
 	confluence.AbstractUnarySource[WriterResponse]
 	relay           confluence.Inlet[relayResponse]
+	relayClosed     <-chan struct{}
 	accumulatedErr  error
 	errSent         bool
 	virtual         *virtualWriter
@@ -284,9 +285,15 @@ func (w *streamWriter) write(ctx context.Context, req WriterRequest) error {
 				excludeUnauthorized = append(excludeUnauthorized, k)
 			}
 		}
-		w.relay.Inlet() <- relayResponse{
+		// Once the relay has shut down (DB.Close) nothing drains its inlet anymore. A
+		// frame written after that point has no streamer to reach, so it is dropped
+		// instead of blocking the writer forever on a full inlet.
+		select {
+		case w.relay.Inlet() <- relayResponse{
 			frame: req.Frame.ExcludeKeys(excludeUnauthorized),
 			group: w.ControlSubject.Group,
+		}:
+		case <-w.relayClosed:
 		}
 	}
 	return accumulatedErr
